@@ -48,7 +48,7 @@ class PathTable:
                  env: Optional[Dict[str, sp.Expr]] = None, call_hook: Optional[Callable] = None, inline_depth: int = 2,
                  positive: Sequence[str] = (), structured: bool = False, scope: Optional[Func] = None,
                  skip_if: Optional[Callable[[ast.If], bool]] = None, unroll: bool = False, opaque: Sequence[str] = (),
-                 search_loops: bool = False):
+                 search_loops: bool = False, sum_loops: bool = False):
         self.prog = prog
         self.module = module
         self.acc = set(accumulators)
@@ -62,6 +62,7 @@ class PathTable:
         self.unroll = unroll            # unroll loops over short literal / module-constant sequences
         self.opaque = set(opaque)       # functions never inlined
         self.search_loops = search_loops    # summarise `for ...: if test: ...; break` loops as found / not found
+        self.sum_loops = sum_loops          # summarise straight-line accumulation loops: acc += g(x)  ->  acc + Sum(g, seq)
 
     # ------------------------------------------------------------------ translation with inlining
     def _T(self, env: Dict[str, sp.Expr], depth: int = 0) -> Translator:
@@ -287,6 +288,10 @@ class PathTable:
                 return self._unrolled(st, rows, l, depth)
         if isinstance(st, ast.For) and self.search_loops and _own_breaks(st):
             r = self._search_loop(st, l, depth)
+            if r is not None:
+                return r
+        if isinstance(st, ast.For) and self.sum_loops:
+            r = self._sum_loop(st, l, depth)
             if r is not None:
                 return r
         if isinstance(st, (ast.For, ast.While)):
@@ -580,6 +585,82 @@ def _assigned_outside_break_paths(stm: ast.stmt) -> Set[str]:
     return assigned_names(stm)
 
 
+def _pt_sum_loop(self, st: ast.For, leaf: Leaf, depth: int) -> Optional[List[Leaf]]:
+    """`for x in S: tmp = ...; acc += g(x, tmp)` with a straight-line body: afterwards acc = acc0 + Sum(g, S), where the
+    element is the bound symbol `_sum<k>` (tuple targets: item(_sum<k>, j)).  The loop targets keep their last value
+    (item(last(S), j)); temporaries of the body are unknown afterwards."""
+    if st.orelse or any(isinstance(x, (ast.Break, ast.Continue, ast.If, ast.For, ast.While, ast.Try, ast.With, ast.Return, ast.Raise)) for b in st.body for x in ast.walk(b)):
+        return None
+    accs = []
+    for b in st.body:
+        if isinstance(b, ast.AugAssign):
+            if not (isinstance(b.target, ast.Name) and isinstance(b.op, ast.Add)):
+                return None
+            accs.append(b.target.id)
+        elif not (isinstance(b, ast.Assign) and len(b.targets) == 1 and isinstance(b.targets[0], ast.Name)):
+            return None
+    if not accs:
+        return None
+    temps = {b.targets[0].id for b in st.body if isinstance(b, ast.Assign)}
+    if temps & set(accs):
+        return None
+    T = self._T(leaf.env, depth)
+    try:
+        seq = T.tr(st.iter)
+    except AnalysisError:
+        return None
+    k = getattr(self, "_sum_depth", 0)
+    bound = sp.Symbol(f"_sum{k}", real=True)
+    item = sp.Function("item")
+    entry = self._copy(leaf)
+    ZERO = {a: sp.Symbol(f"<acc0 {a}>", real=True) for a in accs}
+    for a in accs:
+        entry.env[a] = ZERO[a]
+    tnames = []
+    if isinstance(st.target, ast.Name):
+        entry.env[st.target.id] = bound
+        tnames = [(st.target.id, None)]
+    elif isinstance(st.target, (ast.Tuple, ast.List)) and all(isinstance(e, ast.Name) for e in st.target.elts):
+        for j, e in enumerate(st.target.elts):
+            entry.env[e.id] = item(bound, sp.Integer(j))
+            tnames.append((e.id, j))
+    else:
+        return None
+    # a temporary or accumulator read before it is written in the body would carry a value between iterations
+    seen_w: Set[str] = set()
+    for b in st.body:
+        val = b.value
+        reads = {n.id for n in ast.walk(val) if isinstance(n, ast.Name)}
+        if reads & (temps - seen_w) or reads & set(accs):
+            return None
+        seen_w |= {b.targets[0].id} if isinstance(b, ast.Assign) else set()
+    self._sum_depth = k + 1
+    try:
+        body = self._walk(st.body, entry, depth)
+    except AnalysisError:
+        return None
+    finally:
+        self._sum_depth = k
+    if len(body) != 1 or len(body[0].events) != len(entry.events):
+        return None
+    b = body[0]
+    out = leaf
+    out.events.append(("loop", unparse(st.target), sp.Symbol("<loop>"), st))
+    out.snaps[id(st)] = (dict(leaf.env), len(leaf.conds))
+    for a in accs:
+        inc = b.env[a] - ZERO[a]
+        if inc.has(ZERO[a]):
+            return None
+        out.env[a] = out.env.get(a, sp.Symbol(a, real=True)) + sp.Function("Sum")(inc, seq)
+    last = sp.Function("last")(seq)
+    for nm, j in tnames:
+        out.env[nm] = last if j is None else item(last, sp.Integer(j))
+    for nm in temps:
+        out.env[nm] = sp.Symbol(f"<last {nm}>", real=True)
+    return [out]
+
+
+PathTable._sum_loop = _pt_sum_loop
 PathTable._search_loop = _pt_search_loop
 PathTable._rows = _pt_rows
 PathTable._unrolled = _pt_unrolled
